@@ -54,14 +54,14 @@ pub fn alphabet() -> Vec<Vec<Value>> {
     vec![
         vec![
             rule("ab", 10, "/a", Some("/b"), Some(301), json!({}), vec![ex("/a", true, &["ru-ab"]), ex("/zzz", false, &[])]),
-            rule("ab", 10, "/a", Some("/c"), Some(302), json!({}), vec![ex("/a", true, &["ru-ab"])]),
+            rule("ab", 10, "/a", Some("/c"), Some(302), json!({"source": {"methods": ["GET", "POST"]}}), vec![ex("/a", true, &["ru-ab"])]),
         ],
         vec![
             rule("bc", 9, "/b", Some("/c"), Some(302), json!({}), vec![ex("/b", true, &["ru-bc"])]),
             rule("bc", 9, "/b", Some("/a"), Some(302), json!({}), vec![ex("/b", true, &["ru-bc"])]),
         ],
         vec![
-            rule("ss", 8, "/s", Some("/s"), Some(301), json!({}), vec![ex("/s", true, &["ru-ss"])]),
+            rule("ss", 8, "/s", Some("/s"), Some(301), json!({}), vec![ex("/s", true, &["ru-ss"]), json!({"url": "/s", "method": "POST", "headers": null, "ip_address": null, "response_status_code": null, "must_match": true, "unit_ids_applied": ["ru-ss"]})]),
             rule("ss", 8, "/s", Some(&format!("https://{HOST}/s")), Some(308), json!({}), vec![ex(&format!("https://{HOST}/s"), true, &["ru-ss"])]),
         ],
         vec![
@@ -107,6 +107,8 @@ pub struct Case {
     pub example_url: String,
     pub example_code: Option<u16>,
     pub impact_action: String,
+    #[serde(default)]
+    pub example_method: Option<String>,
 }
 
 fn config() -> RouterConfig {
@@ -281,6 +283,63 @@ fn live_pipeline(router: &Router<Rule>, example: &Example) -> Option<(u16, u16, 
     Some((final_code, backend, headers, out, log))
 }
 
+fn join_url(base: &str, location: &str) -> String {
+    match url::Url::parse(base) {
+        Err(_) => location.to_string(),
+        Ok(b) => match b.join(location) {
+            Ok(u) => u.to_string(),
+            Err(_) => location.to_string(),
+        },
+    }
+}
+
+/// Independent redirect-chain follower built on the live pipeline: (hops as (url, status, method), error)
+fn follow(router: &Router<Rule>, example: &Example, max_hops: u8, domains: &[String]) -> (Vec<(String, u16, String)>, Option<&'static str>) {
+    let mut url = example.url.clone();
+    let mut method = example.method.clone().unwrap_or_else(|| "GET".to_string());
+    let mut hops = vec![(url.clone(), 0u16, method.clone())];
+    let mut error = None;
+    for i in 1..=max_hops {
+        let e = example.with_url(url.clone()).with_method(Some(method.clone()));
+        let (code, _, headers, _, _) = match live_pipeline(router, &e) {
+            Some(r) => r,
+            None => break,
+        };
+        if ![301, 302, 307, 308].contains(&code) {
+            break;
+        }
+        let location = match headers.iter().find(|(n, _)| n.to_lowercase() == "location") {
+            Some((_, v)) => v.clone(),
+            None => break,
+        };
+        let next = join_url(&url, &location);
+        if i > 1 {
+            error = Some("AtLeastOneHop");
+        }
+        // the request that follows a 301/302 is a GET; the repeat test is on the (URL, method) of that request
+        let next_method = if code == 301 || code == 302 { "GET".to_string() } else { method.clone() };
+        let repeated = hops.iter().any(|(u, _, m)| *u == next && *m == next_method);
+        hops.push((next.clone(), code, next_method.clone()));
+        if repeated {
+            error = Some("Loop");
+            break;
+        }
+        if let Ok(parsed) = url::Url::parse(&next) {
+            let in_project = parsed.host_str().map(|h| domains.iter().any(|d| d == h)).unwrap_or(false);
+            if !domains.is_empty() && !in_project {
+                break;
+            }
+        }
+        if i >= max_hops {
+            error = Some("TooManyHops");
+            break;
+        }
+        url = next;
+        method = next_method;
+    }
+    (hops, error)
+}
+
 fn check_loop(rl: &Value, max_hops: u8, out: &mut Vec<(String, String)>, ctx: &str) {
     if rl.is_null() {
         return;
@@ -322,7 +381,7 @@ pub fn check_case(case: &Case) -> Vec<(String, String)> {
     let before = probe_answers(&shared);
     let before_snap = shared.verif_snapshot();
     let ctx = format!("base {:?} change-set +{:?} ~{:?} -{:?} hops {} domains {:?}", case.base, case.added, case.updated, case.deleted, case.max_hops, b.domains);
-    let example = json!({"url": case.example_url, "method": null, "headers": null, "ip_address": null, "response_status_code": case.example_code, "must_match": true, "unit_ids_applied": []});
+    let example = json!({"url": case.example_url, "method": case.example_method, "headers": null, "ip_address": null, "response_status_code": case.example_code, "must_match": true, "unit_ids_applied": []});
     let mut compare = |name: &str, project: Value, standalone: Value, out: &mut Vec<(String, String)>| {
         let p = strip(&project);
         let s = strip(&standalone);
@@ -381,6 +440,21 @@ pub fn check_case(case: &Case) -> Vec<(String, String)> {
         (Some(Ok(p)), Some(Ok(s))) => {
             compare("explain", p.clone(), s.clone(), &mut out);
             check_loop(&s["redirection_loop"], case.max_hops, &mut out, &ctx);
+            // the hop list against the independent follower (only when the example carries no status code:
+            // with one, explain and the live pipeline already disagree on the first response, see the open finding)
+            if case.example_code.is_none() {
+                if let Ok(e) = serde_json::from_value::<Example>(example.clone()) {
+                    let (hops, error) = follow(&final_router, &e, case.max_hops, &b.domains);
+                    let got_hops: Vec<(String, u16, String)> = s["redirection_loop"]["hops"].as_array().cloned().unwrap_or_default().iter().map(|h| (h["url"].as_str().unwrap_or("").to_string(), h["status_code"].as_u64().unwrap_or(0) as u16, h["method"].as_str().unwrap_or("").to_string())).collect();
+                    let got_error = s["redirection_loop"]["error"].as_str();
+                    if got_hops != hops || got_error != error {
+                        out.push((
+                            format!("loop:differs-from-independent-follower:{}", if got_hops != hops { "hops" } else { "error" }),
+                            format!("explain reports hops {got_hops:?} error {got_error:?}; following the live pipeline gives {hops:?} error {error:?}; example {example}; {ctx}"),
+                        ));
+                    }
+                }
+            }
             // the reported response is the live pipeline's
             if let Ok(e) = serde_json::from_value::<Example>(example.clone()) {
                 if let Some((fc, bc, headers, body, log)) = live_pipeline(&final_router, &e) {
@@ -413,7 +487,12 @@ pub fn check_case(case: &Case) -> Vec<(String, String)> {
     }
     // Impact: the edited rule is the first updated / added / base rule
     let alpha = alphabet();
-    let edited: Option<Value> = case.updated.first().map(|i| alpha[*i][1].clone()).or_else(|| case.added.first().map(|i| alpha[*i][0].clone())).or_else(|| case.base.first().map(|i| alpha[*i][0].clone()));
+    let edited: Option<Value> = if case.impact_action == "add" && !case.added.is_empty() {
+        // a draft that is already in the change-set and is edited again: the other version, same id
+        case.added.first().map(|i| alpha[*i][1].clone())
+    } else {
+        case.updated.first().map(|i| alpha[*i][1].clone()).or_else(|| case.added.first().map(|i| alpha[*i][0].clone())).or_else(|| case.base.first().map(|i| alpha[*i][0].clone()))
+    };
     if let Some(rule) = edited {
         let im_project = serde_json::from_value::<ImpactProjectInput>(json!({"max_hops": case.max_hops, "with_redirection_loop": true, "domains": b.domains, "rule": rule, "action": case.impact_action, "change_set": b.change_set}))
             .map(|i| serde_json::to_value(ImpactOutput::from_impact_project(i, shared.clone())).unwrap());
@@ -497,6 +576,7 @@ pub fn cases(tier: Tier) -> Vec<Case> {
                             _ => Some(200),
                         };
                         let action = ["update", "add", "delete"][(k + ui) % 3];
+                        let example_method = if (k + ui) % 4 == 1 { Some("POST".to_string()) } else { None };
                         out.push(Case {
                             base: base.clone(),
                             added: added.clone(),
@@ -507,6 +587,7 @@ pub fn cases(tier: Tier) -> Vec<Case> {
                             example_url: url.to_string(),
                             example_code: code,
                             impact_action: action.to_string(),
+                            example_method,
                         });
                     }
                 }
